@@ -730,6 +730,10 @@ func (fr *Frame) backEdge(li *LoopInfo, st *State, cond string) {
 		g := fr.evalBool(inv.E, fr.invEnv(st), inv)
 		c.oblige(fr.oname(lname+"/invariant-step", clauseLabel(inv, i)), "invariant-step", fr.tagsFor(inv), cond, g, inv.Line, inv.Text)
 	}
+	for i, sc := range li.lc.Steps {
+		g := fr.evalBool(sc.E, fr.invEnv(st), sc)
+		c.oblige(fr.oname(lname+"/step", clauseLabel(sc, i)), "ensures", fr.tagsFor(sc), cond, g, sc.Line, sc.Text)
+	}
 	if len(li.lc.Decreases) == 0 {
 		c.oblige(fr.oname(lname+"/decreases", "missing"), "decreases", fr.safetyTags, cond, "false", 0, "loop without decreases clause")
 		return
